@@ -282,9 +282,15 @@ func (fr *Frame) execInstr(st *State, instr ssa.Instruction) {
 	case *ssa.Select:
 		fr.execSelect(st, x)
 	case *ssa.Send:
-		fr.top.note("channel send not modelled (treated as no-op) in " + fr.fn.Name())
-	case *ssa.Range, *ssa.Next:
-		panic(unsupported("range over map/string"))
+		fr.top.note("channel send: only the package's channel invariant is checked, the transfer itself is not modelled, in " + fr.fn.Name())
+		fr.chanInv(st, x.Chan.Type().Underlying().(*types.Chan).Elem(), fr.val(st, x.X), True, true, x.Pos())
+	case *ssa.Range:
+		if _, ok := x.X.Type().Underlying().(*types.Map); !ok {
+			panic(unsupported("range over string"))
+		}
+		fr.regs[x] = Val{K: KTuple, Elems: []Val{fr.val(st, x.X)}}
+	case *ssa.Next:
+		fr.execNext(st, x)
 	case *ssa.SliceToArrayPointer:
 		panic(unsupported("slice to array pointer"))
 	case *ssa.MultiConvert:
